@@ -367,6 +367,7 @@ type tracer struct {
 	p        *Prog
 	seen     map[ssa.Value]bool
 	seenElem map[elemKey]bool
+	rawElems bool
 	out      []ssa.Value
 	stop     func(ssa.Value) bool
 }
@@ -639,7 +640,11 @@ func (t *tracer) elemStores(base ssa.Value) bool {
 		if ia, ok := r.(*ssa.IndexAddr); ok && ia.X == base {
 			for _, r2 := range *ia.Referrers() {
 				if st, ok := r2.(*ssa.Store); ok && st.Addr == ssa.Value(ia) {
-					t.walk(st.Val)
+					if t.rawElems {
+						t.out = append(t.out, st.Val)
+					} else {
+						t.walk(st.Val)
+					}
 				}
 			}
 		}
@@ -1305,6 +1310,14 @@ func AllReturnsDominatedBy(ins ssa.Instruction) bool {
 // stores (see Sources); ok is false when s has an origin that cannot be seen through.
 func (p *Prog) ElementSources(s ssa.Value) ([]ssa.Value, bool) {
 	t := &tracer{p: p, seen: map[ssa.Value]bool{}}
+	ok := t.elements(s, 0)
+	return t.out, ok
+}
+
+// ElementValues lists the values stored into slice s by appends and element
+// stores, as they are (not traced further).
+func (p *Prog) ElementValues(s ssa.Value) ([]ssa.Value, bool) {
+	t := &tracer{p: p, seen: map[ssa.Value]bool{}, rawElems: true}
 	ok := t.elements(s, 0)
 	return t.out, ok
 }
